@@ -507,6 +507,12 @@ func TestVerifC05(t *testing.T) {
 			}
 		}
 	}
+	for i := range jobs {
+		if jobs[i].p.Scn == "summary" {
+			// the per-sample maps of the records make the summaries' happens-before states many
+			jobs[i].max *= 8
+		}
+	}
 	r.Bound("jobs", len(jobs))
 	r.Bound("exploration", "delay bounding (quick 1, thorough 2 deviations) from two default schedulers (lowest-id-first and newest-thread-first) + at most 1 non-default pool answer, happens-before state caching, L2 conflict sites to fixpoint")
 	for k, j := range jobs {
